@@ -233,6 +233,10 @@ def expected_regs(d, acc):
             exp["WEIGHT%s_LENGTH" % sfx] = (w[2], 0)
             exp["SCALE%s_BASE" % sfx] = b[1]
             exp["SCALE%s_LENGTH" % sfx] = (b[2], 0)
+        if acc is not None and HW.ACCEL[acc]["cores"] == 2 and len(d["weights"]) == 1:
+            # a present core without a stream of its own must be told so: length 0 (its base is then of no consequence)
+            exp["WEIGHT1_LENGTH"] = (0, 0)
+            exp["SCALE1_LENGTH"] = (0, 0)
     a = d.get("act") or {}
     if a.get("type") == "TABLE_LOOKUP":
         exp["ACTIVATION"] = 16 + a["lut"]
@@ -480,7 +484,7 @@ def shram_check(it, acc):
 
 class C15(ApiCheck):
     pid = "C15"
-    quick = dict(cases=1500, budget=90, timeout=120)
+    quick = dict(cases=6000, budget=90, timeout=120)
     thorough = dict(cases=40000, budget=1500, timeout=300)
     rule = ("for seeded single operations (conv/depthwise/pool/elementwise; 8/16/32-bit; LUT; scalar/broadcast; upscaling) on 6 accelerators: EVERY "
             "configuration npu_find_block_configs offers is (1) checked against an independent transcription of the SHRAM rules after the generator "
@@ -489,6 +493,8 @@ class C15(ApiCheck):
 
     def gen_workload(self, r, tier):
         acc = r.choice(apigen.ACCS)
+        if r.random() < 0.7:
+            return apigen.gen_single_op(r, acc)
         for _ in range(20):
             wl = apigen.gen_oplist(r, acc, n_ops=r.randint(1, 3), dma_p=0.0)
             ops = [d for d in wl["ops"] if d["t"] != "dma"]
@@ -548,7 +554,7 @@ class C17(ApiCheck):
     quick = dict(cases=600, budget=90, timeout=120)
     thorough = dict(cases=6000, budget=1200, timeout=600)
     rule = ("npu_create_driver_payload(words, accelerator) for word lists of boundary and random lengths (0..5, 2^16-1, 2^16, 2^16+1, random up to 2^18; "
-            "thorough: 2^24-1 and 2^24) and all byte patterns, as HISTORIES of several accelerators in one process (the payload of one must not depend "
+            "2^24-1 and 2^24 once per run, more often in the thorough tier) and all byte patterns, as HISTORIES of several accelerators in one process (the payload of one must not depend "
             "on an earlier one), plus the command-stream tensors of compiled networks; the driver peer parses every payload; distinct = digest(case); "
             "non-trivial = >= 2 payloads in one process")
     components = {"real": ["npu_create_driver_payload / driver_actions", "whole compiler for the network part"], "model": ["Ethos-U driver payload parser"], "stub": []}
@@ -560,6 +566,11 @@ class C17(ApiCheck):
             opts, _ = netgen.gen_options(r)
             return dict(kind="net", recipe=recipe, opts=opts)
         steps = []
+        if i == 0:
+            # the boundary of the 24-bit length field, once per run in both tiers (all-zero words keep the 2^24-element lists cheap)
+            for n in ((1 << 24), (1 << 24) - 1):
+                steps.append(dict(acc=r.choice(apigen.ACCS), n=n, pattern="zeros", wseed=0))
+            return dict(kind="api", steps=steps)
         for _ in range(r.randint(2, 6)):
             n = r.choice([0, 1, 2, 3, 4, 5, 7, 8, 65535, 65536, 65537, r.randint(6, 300), r.randint(300, 1 << 18)])
             if tier == "thorough" and i % 200 == 0 and not steps:
